@@ -38,10 +38,17 @@ type graph struct {
 	// before the relation members. A way member whose ref equals a relation id is
 	// not a reference to that relation (member references are typed).
 	Ways map[int][][]int
+	// Off is added to every id handed to the library (requests, histories,
+	// member refs): relation ids are 64-bit numbers, the ordering must not depend
+	// on them fitting the 40 ref bits of a packed feature id.
+	Off int64
 }
 
 func (g graph) String() string {
 	var parts []string
+	if g.Off != 0 {
+		parts = append(parts, fmt.Sprintf("ids+%d", g.Off))
+	}
 	for id := 1; id <= g.N; id++ {
 		vs, ok := g.Versions[id]
 		if !ok {
@@ -75,13 +82,15 @@ func (d *ds) RelationHistory(_ context.Context, id osm.RelationID) (osm.Relation
 	if d.failAt != 0 && d.calls == d.failAt {
 		return nil, errBroken
 	}
+	ext := id
+	id -= osm.RelationID(d.g.Off)
 	vs, ok := d.g.Versions[int(id)]
-	if !ok {
+	if !ok || int64(int(id)) != int64(id) {
 		return nil, errNotFound
 	}
 	var out osm.Relations
 	for i, refs := range vs {
-		r := &osm.Relation{ID: id, Version: i + 1, Visible: true, Timestamp: time.Unix(int64(1000*(i+1)), 0)}
+		r := &osm.Relation{ID: ext, Version: i + 1, Visible: true, Timestamp: time.Unix(int64(1000*(i+1)), 0)}
 		if ws, ok := d.g.Ways[int(id)]; ok {
 			// typed variant: only the listed way members, then the relation members
 			for _, w := range ws[i] {
@@ -91,7 +100,7 @@ func (d *ds) RelationHistory(_ context.Context, id osm.RelationID) (osm.Relation
 			r.Members = append(r.Members, osm.Member{Type: osm.TypeNode, Ref: int64(refs0(refs))}, osm.Member{Type: osm.TypeWay, Ref: 2})
 		}
 		for _, ref := range refs {
-			r.Members = append(r.Members, osm.Member{Type: osm.TypeRelation, Ref: int64(ref), Role: "sub"})
+			r.Members = append(r.Members, osm.Member{Type: osm.TypeRelation, Ref: int64(ref) + d.g.Off, Role: "sub"})
 		}
 		out = append(out, r)
 	}
@@ -188,10 +197,10 @@ func checkEmission(g graph, req []int, got []int) (string, string) {
 	return "", ""
 }
 
-func relIDs(ids []int) []osm.RelationID {
+func relIDs(g graph, ids []int) []osm.RelationID {
 	out := make([]osm.RelationID, len(ids))
 	for i, id := range ids {
-		out[i] = osm.RelationID(id)
+		out[i] = osm.RelationID(int64(id) + g.Off)
 	}
 	return out
 }
@@ -206,9 +215,9 @@ func drainScenario(g graph, req []int) vexplore.Scenario {
 		closed := false
 		main := func() {
 			d := &ds{g: g}
-			o := annotate.NewChildFirstOrdering(context.Background(), relIDs(req), d)
+			o := annotate.NewChildFirstOrdering(context.Background(), relIDs(g, req), d)
 			for o.Next() {
-				got = append(got, int(o.RelationID()))
+				got = append(got, int(int64(o.RelationID())-g.Off))
 				if len(got) > 10*(g.N+1) {
 					budgetHit = true
 					break
@@ -265,7 +274,7 @@ func stopScenario(gname string, g graph, req []int, k, stop, bound int) vexplore
 				d.failAt = k + 1
 			}
 			ctx, cancel := vsched.WithCancel(context.Background())
-			o := annotate.NewChildFirstOrdering(ctx, relIDs(req), d)
+			o := annotate.NewChildFirstOrdering(ctx, relIDs(g, req), d)
 			if stop == stopCancelOther {
 				vsched.GoNamed("canceller", func() { cancel() })
 			}
@@ -279,7 +288,7 @@ func stopScenario(gname string, g graph, req []int, k, stop, bound int) vexplore
 					ended = true
 					break
 				}
-				got = append(got, int(o.RelationID()))
+				got = append(got, int(int64(o.RelationID())-g.Off))
 				if len(got) > 50 {
 					break
 				}
@@ -493,6 +502,17 @@ func main() {
 						sc := drainScenario(g, rq)
 						if !yield(&sc) {
 							return
+						}
+					}
+					if gi%7 == 3 {
+						// the same graph with ids beyond 40 bits
+						g.Off = 1<<40 + 1<<35
+						for _, rq := range reqs {
+							sc := drainScenario(g, rq)
+							sc.Family = "drain-big-ids"
+							if !yield(&sc) {
+								return
+							}
 						}
 					}
 				}
